@@ -113,7 +113,7 @@ def _validate(v: Union[str, bytes], prefixes: list):
     if isinstance(v, str):
         v = v.encode()
     v = scrub_input(v)
-    if any(map(v.startswith, prefixes)):
+    if any(len(v) == enc[1] and v.startswith(enc[0]) for enc in base58_encodings if enc[0] in prefixes):
         base58_decode(v)
     else:
         raise ValueError('Unknown prefix.')
